@@ -1,6 +1,6 @@
 use crate::VueJsxTransformVisitor;
 use indexmap::{IndexMap, IndexSet};
-use std::borrow::Cow;
+use std::{borrow::Cow, cell::Cell};
 use swc_core::{
     common::{comments::Comments, EqIgnoreSpan, Span, Spanned, DUMMY_SP},
     ecma::{
@@ -23,10 +23,53 @@ struct PropIr {
     required: bool,
 }
 
+/// Declarations may refer to themselves (`type A = A | B`, `interface A extends A`,
+/// `type A = { x: A['x'] }`); resolving them must stop instead of exhausting the stack.
+const MAX_RESOLVE_DEPTH: u16 = 128;
+
+struct ResolveGuard<'a> {
+    depth: &'a Cell<u16>,
+    aborted: &'a Cell<bool>,
+}
+
+impl Drop for ResolveGuard<'_> {
+    fn drop(&mut self) {
+        let depth = self.depth.get() - 1;
+        self.depth.set(depth);
+        if depth == 0 {
+            self.aborted.set(false);
+        }
+    }
+}
+
 impl<C> VueJsxTransformVisitor<C>
 where
     C: Comments,
 {
+    /// Called on entry of every recursive resolver. Once the limit is hit, the whole
+    /// resolution in progress is abandoned (so that branching cycles end quickly too).
+    fn enter_resolve(&self, span: Span) -> Option<ResolveGuard<'_>> {
+        if self.resolve_aborted.get() {
+            return None;
+        }
+        let depth = self.resolve_depth.get();
+        if depth >= MAX_RESOLVE_DEPTH {
+            self.resolve_aborted.set(true);
+            HANDLER.with(|handler| {
+                handler.span_err(
+                    span,
+                    "Type is circular or too deeply nested to be resolved.",
+                );
+            });
+            return None;
+        }
+        self.resolve_depth.set(depth + 1);
+        Some(ResolveGuard {
+            depth: &self.resolve_depth,
+            aborted: &self.resolve_aborted,
+        })
+    }
+
     pub(crate) fn extract_props_type(&mut self, setup_fn: &ExprOrSpread) -> Option<Expr> {
         let mut defaults = None;
         let first_param_type = if let ExprOrSpread { expr, spread: None } = setup_fn {
@@ -360,6 +403,9 @@ where
     }
 
     fn resolve_type_elements(&self, ty: &TsType, props: &mut Vec<RefinedTsTypeElement>) {
+        let Some(_guard) = self.enter_resolve(ty.span()) else {
+            return;
+        };
         match ty {
             TsType::TsTypeLit(TsTypeLit { members, .. }) => {
                 props.extend(members.iter().filter_map(|member| match member {
@@ -588,6 +634,9 @@ where
     }
 
     fn resolve_string_or_union_strings(&self, ty: &TsType) -> Vec<Atom> {
+        let Some(_guard) = self.enter_resolve(ty.span()) else {
+            return vec![];
+        };
         match ty {
             TsType::TsLitType(TsLitType {
                 lit: TsLit::Str(key),
@@ -639,6 +688,7 @@ where
     }
 
     fn resolve_indexed_access(&self, obj: &TsType, index: &TsType) -> Option<TsType> {
+        let _guard = self.enter_resolve(obj.span())?;
         match obj {
             TsType::TsTypeRef(TsTypeRef {
                 type_name: TsEntityName::Ident(ident),
@@ -943,6 +993,9 @@ where
 
     fn infer_runtime_type(&self, ty: &TsType) -> IndexSet<Option<Atom>> {
         let mut runtime_types = IndexSet::with_capacity(1);
+        let Some(_guard) = self.enter_resolve(ty.span()) else {
+            return runtime_types;
+        };
         match ty {
             TsType::TsKeywordType(keyword) => match keyword.kind {
                 TsKeywordTypeKind::TsStringKeyword => {
